@@ -1154,7 +1154,23 @@ func c12One(run *Run, c kvCase) {
 			ordered = false
 		}
 	}
-	run.add(c.term(ordered, o, after), c, o.text(), len(res) > 0)
+	idxOnStar := false
+	for _, p := range c.Pairs {
+		old := strings.SplitN(p, ":", 2)[0]
+		if keys, okp := specParse(old); (okp && hasIndexOnStar(keys)) || (!okp && pathHasStar(old) && strings.Contains(old, "[")) {
+			idxOnStar = true
+		}
+	}
+	if idxOnStar {
+		run.count("index-on-wildcard(no model term)") // selects by map-iteration order
+	} else if !ordered && len(c.Pairs) > 1 {
+		// a wildcard old path fills a list in map-iteration order; a later pair that nests below it then descends into "the
+		// first map member", which that order decides: the result is not a function of the input (a key that literally is
+		// "*" reads as a wildcard too).  No model term; the receiver clause below is still evaluated.
+		run.count("wildcard-with-several-pairs(no model term)")
+	} else {
+		run.add(c.term(ordered, o, after), c, o.text(), len(res) > 0)
+	}
 
 	run.sum.OracleEvals++
 	if o.Panicked {
